@@ -56,6 +56,35 @@ def load_prop(prop: str):
     return importlib.import_module("sim.props." + prop.lower())
 
 
+class RunTimeout(BaseException):
+    """raised by the CPU-time watchdog inside the code under test"""
+
+
+def execute_guarded(mod, scn):
+    """mod.execute(scn) under a CPU-time watchdog (ITIMER_VIRTUAL: user CPU time of this process, so a descheduled or
+    frozen worker cannot trip it). A run that burns more CPU than RUN_CPU_LIMIT_S - thousands of times a normal run -
+    is reported as a violation 'does-not-terminate' of the property under test, not as a harness error."""
+    import signal
+
+    limit = float(getattr(mod, "RUN_CPU_LIMIT_S", 120.0))
+
+    def on_alarm(signum, frame):
+        raise RunTimeout()
+
+    old = signal.signal(signal.SIGVTALRM, on_alarm)
+    signal.setitimer(signal.ITIMER_VIRTUAL, limit)
+    try:
+        return mod.execute(scn)
+    except RunTimeout:
+        return {"verdict": "violation", "sig": [scn["prop"], "run", "does-not-terminate"], "step": None,
+                "detail": f"the run used more than {limit:.0f}s of CPU (a normal run takes milliseconds): an operation of the "
+                          "code under test does not terminate", "log": "timeout", "steps": 0, "faults": {}, "probes": {},
+                "states": [], "trigrams": [], "nontrivial": True}
+    finally:
+        signal.setitimer(signal.ITIMER_VIRTUAL, 0)
+        signal.signal(signal.SIGVTALRM, old)
+
+
 def scen_digest(scn) -> str:
     from sim.core import digest
 
@@ -93,7 +122,7 @@ def mode_lane(prop: str, cfg_path: str, out_path: str) -> int:
             sd = scen_digest(scn)
             scn["hashseed"] = cfg["hashseed"]
             try:
-                res = mod.execute(scn)
+                res = execute_guarded(mod, scn)
             except Exception:
                 out.write(json.dumps({"seed": seed, "verdict": "harness-error", "scen": sd,
                                       "trace": traceback.format_exc()[-3000:], "scenario": scn}) + "\n")
@@ -145,9 +174,14 @@ def mode_minimise(in_path: str, out_path: str) -> int:
     mod = load_prop(scn["prop"])
     from sim.minimise import Minimiser
 
-    m = Minimiser(mod, tuple(doc["sig"]), budget_s=doc.get("budget_s", 60), max_execs=doc.get("max_execs", 3000))
-    small = m.run(scn)
-    res = mod.execute(small)
+    if list(doc["sig"])[-1] == "does-not-terminate":
+        # every candidate costs a full watchdog period: keep the scenario as it is
+        small = scn
+        m = type("M", (), {"execs": 0})()
+    else:
+        m = Minimiser(mod, tuple(doc["sig"]), budget_s=doc.get("budget_s", 60), max_execs=doc.get("max_execs", 3000))
+        small = m.run(scn)
+    res = execute_guarded(mod, small)
     doc_out = {"property": scn["prop"], "signature": doc["sig"], "scenario": small,
                "expected": {"verdict": res["verdict"], "sig": res.get("sig"), "log": res["log"],
                             "detail": res.get("detail"), "step": res.get("step")},
@@ -170,10 +204,7 @@ def mode_replay(path: str, events: bool) -> int:
     faulthandler.dump_traceback_later(600, exit=True)
     mod = load_prop(scn["prop"])
     try:
-        if events and hasattr(mod, "execute_verbose"):
-            res = mod.execute_verbose(scn)
-        else:
-            res = mod.execute(scn)
+        res = execute_guarded(mod, scn)
     except Exception:
         print(json.dumps({"verdict": "harness-error", "trace": traceback.format_exc()[-3000:]}))
         return 2
